@@ -190,3 +190,73 @@ func init() {
 			return out
 		}})
 }
+
+// MONTERR — the error of an encryption is brought to the representation of the ciphertext.
+//
+// A ciphertext's metadata says whether its polynomials are in the NTT domain and whether they are in Montgomery form.
+// An encryption routine that adapts its work to `ct.IsNTT` has to adapt the sampled error to `ct.IsMontgomery` as
+// well (or convert it to Montgomery form unconditionally when its contract says the mask already is): an error left in
+// plain form inside a Montgomery-form ciphertext is an error multiplied by 2^-64 mod q, i.e. noise of the size of q.
+func scanMontErr(c *core.Ctx) []ob {
+	var out []ob
+	n := 0
+	c.FuncDecls(func(pk *packages.Package, file *ast.File, fd *ast.FuncDecl) {
+		rel := core.ShortPkg(pk.PkgPath)
+		if fd.Body == nil || fileIsTestSupport(c.Program, fd.Pos()) || !(c.IsFixture || rel == "core/rlwe" || rel == "core/rgsw") {
+			return
+		}
+		if !strings.Contains(core.RecvTypeName(fd), "Encryptor") && !c.IsFixture {
+			return
+		}
+		info := pk.TypesInfo
+		readsErr, usesNTT, usesMont, mform := false, false, false, false
+		ast.Inspect(fd.Body, func(x ast.Node) bool {
+			switch v := x.(type) {
+			case *ast.CallExpr:
+				if sel, ok := unparen(v.Fun).(*ast.SelectorExpr); ok {
+					if t := info.TypeOf(sel.X); t != nil && isSamplerType(t) && (sel.Sel.Name == "Read" || sel.Sel.Name == "ReadAndAdd") {
+						low := strings.ToLower(exprString(sel.X))
+						if strings.Contains(low, "xe") || strings.Contains(low, "err") || strings.Contains(low, "noise") || strings.Contains(low, "gauss") {
+							readsErr = true
+						}
+					}
+					if sel.Sel.Name == "MForm" {
+						mform = true
+					}
+				}
+			case *ast.SelectorExpr:
+				if v.Sel.Name == "IsNTT" {
+					usesNTT = true
+				}
+				if v.Sel.Name == "IsMontgomery" {
+					usesMont = true
+				}
+			}
+			return true
+		})
+		if !readsErr || !usesNTT {
+			return
+		}
+		n++
+		fkey := core.FuncKey(pk, fd)
+		key := "MONTERR:" + fkey
+		if usesMont || mform {
+			out = append(out, okOb("MONTERR", key, c.Rel(fd.Pos()), "the Montgomery flag of the target is consulted (or the error converted unconditionally)", true))
+		} else {
+			out = append(out, violOb("MONTERR", key, c.Rel(fd.Pos()), fmt.Sprintf("%s adapts to the NTT flag of the ciphertext it fills but never looks at its Montgomery flag nor converts the sampled error with MForm: for a ciphertext declared in Montgomery form the error is added in plain form, which decrypts as noise of the size of the modulus", fkey)))
+		}
+	})
+	c.Stats["monterr_funcs"] = n
+	return out
+}
+
+func init() {
+	core.Register(&core.Rule{Name: "MONTERR", Props: []string{"C03", "C20"},
+		Doc: "an encryptor routine that samples an error and adapts to the NTT flag of the ciphertext it fills also consults its Montgomery flag, or converts the error with MForm",
+		Run: func(c *core.Ctx) []ob {
+			out := scanMontErr(c)
+			out = append(out, core.Floor("MONTERR", nil, "flag-adapting encryption routines", c.Stats["monterr_funcs"], 3)...)
+			out = append(out, control(c, "MONTERR", scanMontErr, "(emitter).fill")...)
+			return out
+		}})
+}
